@@ -271,6 +271,56 @@ func scenarioC15(c *Ctx) {
 			}
 		}
 	}
+	// the same for the other API path that answers an operation: several simultaneous
+	// approve_participation requests for the pending invitation
+	approveRounds := 6
+	if !c.Quick() {
+		approveRounds = 30
+	}
+	for r := 0; r < approveRounds; r++ {
+		e := NewNodeEnv(newEnvDir(c), me)
+		applyItem(e, h[0]) // the opening proposal: the invitation is pending
+		ops := pendingOps(e)
+		if len(ops) == 0 {
+			e.Close()
+			break
+		}
+		o := ops[0]
+		before, _ := e.Board.GetMessages(0)
+		const submitters = 4
+		var wg sync.WaitGroup
+		start := make(chan struct{})
+		okc := make(chan bool, submitters)
+		for g := 0; g < submitters; g++ {
+			wg.Add(1)
+			go func() {
+				defer wg.Done()
+				defer func() {
+					if x := recover(); x != nil {
+						okc <- false
+					}
+				}()
+				<-start
+				okc <- e.Node.ApproveParticipation(&dto.OperationIdDTO{OperationID: o.ID}) == nil
+			}()
+		}
+		close(start)
+		wg.Wait()
+		close(okc)
+		accepted := 0
+		for ok := range okc {
+			if ok {
+				accepted++
+			}
+		}
+		after, _ := e.Board.GetMessages(0)
+		e.Close()
+		if posted := len(after) - len(before); posted != 1 || accepted != 1 {
+			fail("answered-twice", fmt.Sprintf("%d simultaneous approve_participation requests for one invitation: %d accepted, %d confirmations posted (exactly one of each expected)", submitters, accepted, posted),
+				map[string]interface{}{"operation_type": string(o.Type), "simultaneous_requests": submitters})
+		}
+	}
 	c.Notes["concurrent_duplicate_rounds"] = conc
+	c.Notes["concurrent_approve_rounds"] = approveRounds
 	c.Notes["histories"] = len(cases)
 }
